@@ -70,6 +70,10 @@ def _call(md, how: str, doc: str):
     env: dict = {}
     if how == "parse":
         return [dump(md.parse(doc, env)), env]
+    if how == "parseInline":
+        return [dump(md.parseInline(doc, env)), env]
+    if how == "renderInline":
+        return [md.renderInline(doc, env), env]
     return [md.render(doc, env), env]
 
 
@@ -114,8 +118,7 @@ def enumerate_cases(tier: str, shard: int, nshards: int):
         for ci, cfg in enumerate(CFGS[:2] if tier == "quick" else CFGS):
             if ci not in PAIR_CFGS.get(pi, (pi % 2,)) and tier == "quick":
                 continue
-            for state in ("fresh", "reconfigured"):
-                calls = ["render", "render"]
+            for state, calls in (("fresh", ["render", "render"]), ("reconfigured", ["render", "render"]), ("fresh", ["renderInline", "render"]), ("fresh", ["render", "renderInline"])):
                 counts, focus = rec(cfg, state, docs, calls)
                 n0 = counts[0]
                 ks = set(focus[:: b["focus_stride"]])
@@ -149,6 +152,10 @@ def enumerate_cases(tier: str, shard: int, nshards: int):
                     if idx % nshards != shard:
                         continue
                     yield {"kind": "nested", "docs": docs, "cfg": cfg, "state": state, "site": site, "k": k, "origin": "sweep"}
+                if site in ("inline", "core", "render") and k % 3 == 1:
+                    idx += 1
+                    if idx % nshards == shard:
+                        yield {"kind": "nested", "docs": docs, "cfg": cfg, "state": "fresh", "site": site, "k": k, "origin": "sweep", "outer": "renderInline"}
 
 
 @st.composite
@@ -174,7 +181,7 @@ def _case(draw, nthreads: int):
     plan = []
     for _ in range(d.i(1, 8)):
         plan.append(d.i(1, 50) if d.chance(0.45) else d.i(51, 6000))
-    calls = [d.pick(["render", "render", "parse"]) for _ in docs]
+    calls = [d.pick(["render", "render", "parse", "renderInline", "parseInline"]) for _ in docs]
     return {"kind": "threads", "docs": docs, "calls": calls, "cfg": cfg, "state": state, "plan": plan, "origin": "generated"}
 
 
@@ -274,8 +281,14 @@ def check_nested(case, res: Res) -> None:
     elif state == "warm":
         re.n = 0
     env: dict = {}
+    outer = md.renderInline if case.get("outer") == "renderInline" else md.render
+    if case.get("outer") == "renderInline":
+        env_c2: dict = {}
+        ctrl3 = C.build(cfg)
+        install(ctrl3, site, lambda: None)
+        expected_outer = [ctrl3.renderInline(d1, env_c2), env_c2]
     try:
-        got = [md.render(d1, env), env]
+        got = [outer(d1, env), env]
     except RecursionError as e:
         res.fail(f"nested:{site}:RecursionError", repr(e)[:200])
         return
